@@ -311,3 +311,210 @@ Proof.
   |]).
   contradiction.
 Qed.
+
+(* ---- events: every event reaches the handler with its own index, flags, value and absolute time ---- *)
+Definition event_time_result (r : recipe) (m : cmeas) : option (tq * N) :=
+  match rc_to_time r with
+  | None => None
+  | Some ToTimeInto => Some (Sync, time_stamp (cm_time m))
+  | Some ToTimeCto => Some (event_time m)
+  end.
+
+Definition event_result (r : recipe) (m : cmeas) : cmeas :=
+  mk_cmeas (narrowed_value r m) (narrowed_flags r m) (event_time_result r m) [].
+
+(* an event of one of the event variations of outstation/database/details/event/traits.rs *)
+Definition ev_wf (e : cpoint) : Prop :=
+  exists t c, In (t, cp_group e, cp_var e, c) event_vars /\ wf_meas t (cp_meas e).
+
+Definition ev_expect (e : cpoint) : otype * N * cmeas :=
+  match find_recipe (cp_group e) (cp_var e) with
+  | Some r => (OT (rc_type r), cp_idx e, event_result r (cp_meas e))
+  | None => (OOct, cp_idx e, cp_meas e)
+  end.
+
+Lemma event_var_facts t g v c : In (t, g, v, c) event_vars ->
+  exists r ie hf, find_recipe g v = Some r /\ In r recipes /\ rc_type r = t /\
+    find_info prefixed_info g v = Some (t, ie, hf) /\ uses_cto g v = c /\
+    (rc_to_time r = Some ToTimeCto <-> c = true) /\ is_octets g = false /\ (g =? 111) = false.
+Proof.
+  intros Hin. unfold event_vars in Hin. cbn [In] in Hin.
+  repeat (destruct Hin as [E|Hin]; [
+    injection E as <- <- <- <-;
+    match goal with |- exists r ie hf, find_recipe ?g ?v = _ /\ _ =>
+      let x := eval vm_compute in (find_recipe g v) in
+      match x with Some ?r => exists r end
+    end;
+    match goal with |- exists ie hf, _ /\ _ /\ _ /\ find_info prefixed_info ?g ?v = _ /\ _ =>
+      let x := eval vm_compute in (find_info prefixed_info g v) in
+      match x with Some (_, ?ie, ?hf) => exists ie, hf end
+    end;
+    match goal with |- find_recipe ?g ?v = Some ?r /\ _ =>
+      let Hf := fresh "Hf" in
+      assert (Hf : find_recipe g v = Some r) by (vm_compute; reflexivity);
+      split; [exact Hf|];
+      split; [exact (proj1 (find_some _ _ Hf))|]
+    end;
+    split; [reflexivity|];
+    split; [vm_compute; reflexivity|];
+    split; [vm_compute; reflexivity|];
+    split; [cbn [rc_to_time]; split; congruence|];
+    split; vm_compute; reflexivity
+  |]).
+  contradiction.
+Qed.
+
+Lemma meas_of_app a b : meas_of (a ++ b) = meas_of a ++ meas_of b.
+Proof. induction a as [|[|] a IH]; cbn [meas_of app]; auto. rewrite IH. reflexivity. Qed.
+
+Lemma meas_of_map_meas {A} (f : A -> otype * N * cmeas) l :
+  meas_of (map (fun x => OMeas (fst (fst (f x))) (snd (fst (f x))) (snd (f x))) l) = map f l.
+Proof. induction l as [|x l IH]; cbn [map meas_of]; auto. rewrite IH. destruct (f x) as [[? ?] ?]. reflexivity. Qed.
+
+(* what the master extracts from one count-and-prefix header of an event variation *)
+Lemma extract_prefix_meas cto t g v items r ie hf :
+  find_recipe g v = Some r -> find_info prefixed_info g v = Some (t, ie, hf) -> (g =? 111) = false ->
+  meas_of (extract_prefix cto g v items) = map (fun it => (OT t, fst it, decode_obj r cto (snd it))) items.
+Proof.
+  intros Hr Hi Hg. unfold extract_prefix. rewrite Hg, Hr, Hi. cbn [meas_of].
+  induction items as [|it items IH]; cbn [map meas_of]; auto. rewrite IH. reflexivity.
+Qed.
+
+(* the measurement decoded from the bytes written for event e, under the master's running cto *)
+Lemma event_obj_trip r m cto d :
+  In r recipes -> wf_meas (rc_type r) m -> d < 65536 ->
+  (rc_to_time r = Some ToTimeCto -> cto_add cto d = Some (event_time m)) ->
+  decode_obj r cto (encode_obj r m d) = event_result r m.
+Proof.
+  intros Hin Hwf Hd Hc. rewrite trip_general by assumption.
+  unfold narrowed, event_result. f_equal.
+  unfold narrowed_time, event_time_result.
+  destruct (rc_to_time r) as [[|]|]; auto.
+Qed.
+
+Lemma cto_add_zero tm : snd tm <= timestamp_max -> cto_add (Some tm) 0 = Some tm.
+Proof.
+  destruct tm as [q t]. unfold cto_add, timestamp_max. cbn [snd]. intros H.
+  replace (281474976710655 - t <? 0) with false by (symmetry; apply N.ltb_ge; lia).
+  rewrite N.add_0_r. reflexivity.
+Qed.
+
+Lemma event_time_wf t m : wf_meas t m -> snd (event_time m) <= timestamp_max.
+Proof.
+  intros (_ & _ & Ht & _). unfold event_time, wf_time in *.
+  destruct (cm_time m) as [[q x]|]; cbn [snd]; [exact Ht|unfold timestamp_max; lia].
+Qed.
+
+Definition state_ok (cur : option cestate) (cto_m : option (tq * N)) : Prop :=
+  match cur with
+  | None => True
+  | Some s => (exists t c, In (t, es_g s, es_v s, c) event_vars) /\
+              snd (es_cto s) <= timestamp_max /\
+              (uses_cto (es_g s) (es_v s) = true -> cto_m = Some (es_cto s))
+  end.
+
+Definition pending (cur : option cestate) (cto_m : option (tq * N)) : list (otype * N * cmeas) :=
+  match cur with
+  | None => []
+  | Some s => meas_of (extract_prefix cto_m (es_g s) (es_v s) (es_items s))
+  end.
+
+Lemma extract_cto_hdr cto_m tm X : snd tm <= timestamp_max ->
+  extract cto_m (cto_hdr tm :: X) = extract (Some tm) X.
+Proof.
+  destruct tm as [q t]. unfold cto_hdr. cbn [fst snd extract]. intros H.
+  rewrite N.mod_small by (unfold timestamp_max in *; lia).
+  destruct q; reflexivity.
+Qed.
+
+(* starting a new header for event e and continuing with the rest *)
+Lemma fresh_header e rest cto_m :
+  ev_wf e ->
+  (forall cur cto', state_ok cur cto' ->
+     meas_of (extract cto' (event_write rest cur)) = pending cur cto' ++ map ev_expect rest) ->
+  meas_of (extract cto_m (fst (start_header (cp_idx e) (cp_group e) (cp_var e) (cp_meas e)) ++
+                          event_write rest (Some (snd (start_header (cp_idx e) (cp_group e) (cp_var e) (cp_meas e))))))
+  = ev_expect e :: map ev_expect rest.
+Proof.
+  intros (t & c & Hin & Hwf) IH.
+  destruct (event_var_facts _ _ _ _ Hin) as (r & ie & hf & Hr & Hrin & Ht & Hi & Hu & Hc & Ho & Hg).
+  subst t.
+  pose proof (event_time_wf _ _ Hwf) as Htm.
+  unfold start_header. cbn [fst snd]. rewrite Hu.
+  set (s' := mk_cestate (cp_group e) (cp_var e) (event_time (cp_meas e))
+                        [(cp_idx e, event_bytes (cp_group e) (cp_var e) (cp_meas e) 0)]).
+  assert (Hexp : forall cto', (c = true -> cto' = Some (event_time (cp_meas e))) ->
+            pending (Some s') cto' = [ev_expect e]).
+  { intros cto' Hcto. unfold pending, s'. cbn [es_g es_v es_items].
+    rewrite (extract_prefix_meas cto' (rc_type r) _ _ _ r ie hf Hr Hi Hg). cbn [map fst snd].
+    unfold ev_expect, event_bytes. rewrite Hr, Ho.
+    rewrite event_obj_trip; auto; [lia|].
+    intros Hcto'. apply Hc in Hcto'. rewrite (Hcto Hcto'). apply cto_add_zero. exact Htm. }
+  destruct c.
+  - cbn [app]. rewrite extract_cto_hdr by exact Htm.
+    rewrite IH.
+    + rewrite Hexp by auto. reflexivity.
+    + unfold state_ok, s'. cbn [es_g es_v es_cto]. split; [eauto|]. split; [exact Htm|auto].
+  - cbn [app]. rewrite IH.
+    + rewrite Hexp by congruence. reflexivity.
+    + unfold state_ok, s'. cbn [es_g es_v es_cto]. split; [eauto|]. split; [exact Htm|]. rewrite Hu. congruence.
+Qed.
+
+Theorem event_write_extract evs : Forall ev_wf evs -> forall cur cto_m, state_ok cur cto_m ->
+  meas_of (extract cto_m (event_write evs cur)) = pending cur cto_m ++ map ev_expect evs.
+Proof.
+  induction 1 as [|e rest He Hrest IH]; intros cur cto_m Hok.
+  - destruct cur as [s|]; cbn [event_write extract finish_estate pending map meas_of]; auto.
+    rewrite !app_nil_r. reflexivity.
+  - pose proof (fresh_header e rest) as Hfresh.
+    cbn [event_write map].
+    destruct cur as [s|].
+    + (* a header is in progress *)
+      assert (Hnew : forall X, X = fst (start_header (cp_idx e) (cp_group e) (cp_var e) (cp_meas e)) ++
+                        event_write rest (Some (snd (start_header (cp_idx e) (cp_group e) (cp_var e) (cp_meas e)))) ->
+                meas_of (extract cto_m (finish_estate s :: X)) = pending (Some s) cto_m ++ ev_expect e :: map ev_expect rest).
+      { intros X ->. unfold finish_estate. cbn [extract]. rewrite meas_of_app.
+        rewrite (Hfresh cto_m He IH). reflexivity. }
+      destruct (start_header (cp_idx e) (cp_group e) (cp_var e) (cp_meas e)) as [hs s'] eqn:Esh.
+      cbn [fst snd] in Hnew.
+      destruct ((es_g s =? cp_group e) && (es_v s =? cp_var e)) eqn:Esame; [|cbn [app]; apply Hnew; reflexivity].
+      apply andb_true_iff in Esame. destruct Esame as [Eg Ev]. apply N.eqb_eq in Eg. apply N.eqb_eq in Ev.
+      destruct (N.of_nat (length (es_items s)) =? 65535); [cbn [app]; apply Hnew; reflexivity|].
+      destruct He as (t & c & Hin & Hwf).
+      destruct (event_var_facts _ _ _ _ Hin) as (r & ie & hf & Hr & Hrin & Ht & Hi & Hu & Hc & Ho & Hg).
+      subst t.
+      destruct Hok as (Hsin & Hsmax & Hscto). rewrite Eg, Ev in Hscto.
+      (* appending to the header in progress *)
+      assert (Happend : forall d, d < 65536 ->
+                 (rc_to_time r = Some ToTimeCto -> cto_add cto_m d = Some (event_time (cp_meas e))) ->
+                 meas_of (extract cto_m (event_write rest (Some (mk_cestate (cp_group e) (cp_var e) (es_cto s)
+                             (es_items s ++ [(cp_idx e, event_bytes (cp_group e) (cp_var e) (cp_meas e) d)])))))
+                 = pending (Some s) cto_m ++ ev_expect e :: map ev_expect rest).
+      { intros d Hd Hadd. rewrite IH.
+        - unfold pending. cbn [es_g es_v es_items]. rewrite Eg, Ev.
+          rewrite !(extract_prefix_meas cto_m (rc_type r) _ _ _ r ie hf Hr Hi Hg).
+          rewrite map_app. cbn [map fst snd]. rewrite <- app_assoc. cbn [app].
+          unfold ev_expect at 2, event_bytes. rewrite Hr, Ho.
+          rewrite event_obj_trip; auto.
+        - unfold state_ok. cbn [es_g es_v es_cto]. split; [eauto|]. split; [exact Hsmax|exact Hscto]. }
+      rewrite Hu.
+      destruct c.
+      * destruct (cto_diff (es_cto s) (event_time (cp_meas e))) as [d|] eqn:Ed; [|cbn [app]; apply Hnew; reflexivity].
+        destruct (cto_diff_add _ _ _ (event_time_wf _ _ Hwf) Ed) as [Hd Hadd].
+        apply Happend; [exact Hd|]. intros _. rewrite (Hscto Hu). exact Hadd.
+      * apply Happend; [lia|]. intros Hx. apply Hc in Hx. discriminate.
+    + (* no header yet *)
+      destruct (start_header (cp_idx e) (cp_group e) (cp_var e) (cp_meas e)) as [hs s'] eqn:Esh.
+      cbn [app pending]. specialize (Hfresh cto_m He IH). cbn [fst snd] in Hfresh.
+      exact Hfresh.
+Qed.
+
+(* C10 cto_exact + flags_not_crossed for events: whatever the order, the times, the synchronisation and the
+   number of CTO headers needed, the i-th measurement handed to the master's handler carries the i-th
+   event's index, its own flags and value (as narrowed by the variation) and, for g2v3/g4v3, exactly
+   its absolute time and synchronisation quality *)
+Theorem events_exact req evs : Forall ev_wf (map (event_entry req) evs) ->
+  meas_of (extract None (write_events req evs)) = map ev_expect (map (event_entry req) evs).
+Proof.
+  intros H. unfold write_events. rewrite (event_write_extract _ H None None I). reflexivity.
+Qed.
